@@ -264,6 +264,41 @@ def run(tier='quick', seed=0):
                           ('top_sweep_conv(beta)', conv.top_sweep_conv(conv.beta_conv())),
                           ('beta_norm_conv', conv.beta_norm_conv() if hasattr(conv, 'beta_norm_conv') else conv.all_conv())):
             check_conv(cname, cv, t)
+    # ---- the real normaliser behind auto.auto_conv with and without supplied conditions, in both orders in one process:
+    # hypotheses of the returned equation come only from the conditions supplied to THIS call
+    try:
+        from logic import auto, context as ctx_
+        from syntax import parser as prs_
+        basic.load_theory('realintegral')
+        from data import real as real_mod_
+        ctx_.set_context('realintegral', vars={'x': 'real', 'y': 'real'})
+        auto.clear_cache()
+        rterms = ["x ^ (1 / 2) * x ^ (1 / 2) + y", "(x ^ (1 / 2) * y) * x ^ (3 / 2)", "x * x ^ (1 / 2)", "x ^ (2::nat) * y + x * y",
+                  "x ^ (1 / 2) * x ^ (1 / 2)", "y * (x + 1) - x * y"]
+        for src_ in rterms:
+            t_ = prs_.parse_term(src_)
+            cond_ = ProofTerm.assume(prs_.parse_term("x > 0"))
+            for order in ((True, False), (False, True), (False, False)):
+                for with_cond in order:
+                    evals += 1
+                    try:
+                        cv_ = auto.auto_conv([cond_]) if with_cond else auto.auto_conv()
+                        pt_ = cv_.get_proof_term(t_)
+                    except Exception:
+                        continue
+                    distinct.add(('auto_conv', src_, with_cond))
+                    allowed = {cond_.prop} if with_cond else set()
+                    if pt_.prop.lhs != t_:
+                        violations.append({'function': 'conversion auto.auto_conv', 'clause': 'equation-about-t',
+                                           'what': 'left side is %r' % pt_.prop.lhs, 'term': src_})
+                    if not set(pt_.hyps) <= allowed:
+                        violations.append({'function': 'conversion auto.auto_conv', 'clause': 'hypotheses-from-conditions',
+                                           'what': 'equation for %s has hypotheses %s, supplied conditions: %s' % (
+                                               src_, [repr(h) for h in pt_.hyps], [repr(h) for h in allowed]),
+                                           'term': src_})
+        basic.load_theory('real')
+    except Exception as e_:
+        samples.append({'auto_conv_part': 'skipped: %s: %s' % (type(e_).__name__, str(e_)[:120])})
     seen = set()
     uniq = []
     for v in violations:
